@@ -10,7 +10,7 @@ triangular tag and side; nothing is bounded.  What is *not* a theorem here:
 floating-point backward-error bounds, conjugate gradient, convergence of the
 symmetric eigensolver (see MANIFEST note of checks/c02.py).
 -/
-import SharkVerif.Lemmas.LinSolve
+import SharkVerif.Lemmas.LinSolveChol
 namespace SharkVerif.C02
 open SharkVerif.LinSolve
 
@@ -60,7 +60,7 @@ theorem trsm_correct_left (t : Tri) (n m : Nat) (A B : Mat) (h : triSingular t n
   rw [← key]
   unfold mul mulVec trsm trsmArr trsv
   apply sum_congr; intro j _
-  simp [mget, vget, Array.getD_eq_getD_getElem?, Array.getElem?_ofFn, hk]
+  simp [mget, vget, Array.getD_eq_getD_getElem?, hk]
 
 /-- `kernels::trsm<Triangular, right>`: `X T = B` for an `m × n` right-hand side. -/
 theorem trsm_correct_right (t : Tri) (n m : Nat) (A B : Mat) (h : triSingular t n A = false) :
@@ -70,6 +70,122 @@ theorem trsm_correct_right (t : Tri) (n m : Nat) (A B : Mat) (h : triSingular t 
   rw [← key]
   unfold mul vecMul trsm trsmArr trsv
   apply sum_congr; intro i _
-  simp [mget, vget, Array.getD_eq_getD_getElem?, Array.getElem?_ofFn, hk]
+  simp [mget, vget, Array.getD_eq_getD_getElem?, hk]
+
+/-! ## Cholesky decomposition (`potrf`) -/
+
+/-- specification of the square-root parameter of the model *at the values it is applied to*:
+`r s` is the positive root of a positive `s`.  (Over `Rat` the unrestricted
+`∀ s > 0, r s * r s = s` is unsatisfiable — `√2` is irrational — so the hypothesis is
+asked only of the pivots that actually occur; it holds e.g. for every `A = L Lᵀ` with
+rational `L` and the exact rational root, which is what the correspondence runs.) -/
+def SqrtOn (r : Rat → Rat) (s : Rat) : Prop := 0 < s → r s * r s = s ∧ 0 < r s
+
+/-- `r` is a root of every pivot of the factorisation of `A` -/
+def SqrtSpec (r : Rat → Rat) (n : Nat) (A : Mat) : Prop := ∀ j, j < n → SqrtOn r (cholPivot r n A j)
+
+/-- the factor read off the in-place result: lower triangle incl. diagonal, zero above -/
+def lowerOf (M : Mat) : Mat := fun i j => if j ≤ i then M i j else 0
+
+theorem lowerOf_potrfLower (r : Rat → Rat) (n : Nat) (A : Mat) {i k : Nat} (hi : i < n) (hk : k < n) :
+    lowerOf (potrfLower r n A) i k = chol r n A i k := by
+  unfold lowerOf potrfLower potrfOut
+  rw [mget_matOf]
+  by_cases h : k ≤ i
+  · simp [h, hi, hk, chol]
+  · simp [h]; exact (chol_upper_zero r n A hi hk (by omega)).symm
+
+/-- `potrf<lower>` (kernel `potrf_block(row_major, lower)`, test `s <= 0`):
+**returns 0 ⇒ `L Lᵀ = A` on the stored (lower) triangle**, for every size and every input,
+and the strict upper triangle of the storage is left untouched. -/
+theorem potrf_correct (r : Rat → Rat) (n : Nat) (A : Mat) (hr : SqrtSpec r n A)
+    (h0 : potrfInfo false r n A = 0) :
+    (∀ i j, i < n → j ≤ i →
+      mul n (lowerOf (potrfLower r n A)) (transpose (lowerOf (potrfLower r n A))) i j = A i j) ∧
+    (∀ i j, i < n → j < n → i < j → potrfLower r n A i j = A i j) := by
+  constructor
+  · intro i j hi hji
+    have hj : j < n := by omega
+    have hp := infoOf_zero h0 j hj
+    simp only [Bool.false_eq_true, if_false, not_le] at hp
+    have hp' : 0 < cholS r n A j j := hp
+    have hs := hr j hj hp'
+    have key := chol_column_identity r n A hi hji ⟨hs.1, ne_of_gt hs.2⟩
+    rw [← key]
+    unfold mul transpose
+    apply sum_congr; intro k hk
+    rw [lowerOf_potrfLower r n A hi hk, lowerOf_potrfLower r n A hj hk]
+  · intro i j hi hj hij
+    unfold potrfLower potrfOut
+    rw [mget_matOf]
+    have : ¬ j ≤ i := by omega
+    simp [hi, hj, this]
+
+/-- the other scalar kernel (`potrf_block(row_major, upper)`, reached for column-major storage)
+tests `Aii < 0` only.  PARTIAL: the conclusion needs the extra hypothesis that no pivot is
+exactly zero — an input the real code accepts (it then divides by zero and returns 0 with
+NaN entries; finding `C02-potrf-zero-pivot-accepted`, replayed on the real code by the check). -/
+theorem potrf_strict_correct_partial (r : Rat → Rat) (n : Nat) (A : Mat) (hr : SqrtSpec r n A)
+    (h0 : potrfInfo true r n A = 0) (hnz : ∀ j, j < n → cholPivot r n A j ≠ 0) :
+    ∀ i j, i < n → j ≤ i →
+      mul n (lowerOf (potrfLower r n A)) (transpose (lowerOf (potrfLower r n A))) i j = A i j := by
+  intro i j hi hji
+  have hj : j < n := by omega
+  have hp := infoOf_zero h0 j hj
+  simp only [if_true, not_lt] at hp
+  have hp' : 0 < cholS r n A j j := lt_of_le_of_ne hp (fun e => hnz j hj e.symm)
+  have hs := hr j hj hp'
+  have key := chol_column_identity r n A hi hji ⟨hs.1, ne_of_gt hs.2⟩
+  rw [← key]
+  unfold mul transpose
+  apply sum_congr; intro k hk
+  rw [lowerOf_potrfLower r n A hi hk, lowerOf_potrfLower r n A hj hk]
+
+/-- upper triangle incl. diagonal, zero below -/
+def upperOf (M : Mat) : Mat := fun i j => if i ≤ j then M i j else 0
+
+/-- `potrf<upper>` is `potrf<lower>` of the transposed storage: `Uᵀ U = A` on the upper triangle -/
+theorem potrf_upper_correct (r : Rat → Rat) (n : Nat) (A : Mat) (hr : SqrtSpec r n (transpose A))
+    (h0 : potrfInfo false r n (transpose A) = 0) :
+    ∀ i j, j < n → i ≤ j →
+      mul n (transpose (upperOf (potrfUpper r n A))) (upperOf (potrfUpper r n A)) i j = A i j := by
+  intro i j hj hij
+  have key := (potrf_correct r n (transpose A) hr h0).1 j i hj hij
+  have hU : upperOf (potrfUpper r n A) = transpose (lowerOf (potrfLower r n (transpose A))) := rfl
+  rw [hU]
+  show _ = transpose A j i
+  rw [← key]
+  unfold mul transpose
+  apply sum_congr; intro k _
+  rw [Rat.mul_comm]
+
+/-- return value `k+1`: `k < n`, every earlier pivot was positive — so the leading `k × k` block
+*is* factorised — and the pivot of step `k`, i.e. the Schur complement
+`A(k,k) − Σ_{c<k} L(k,c)²` of the leading `(k+1)`-minor, is not positive. -/
+theorem potrf_info_spec (r : Rat → Rat) (n : Nat) (A : Mat) (k : Nat)
+    (hk : potrfInfo false r n A = k + 1) :
+    k < n ∧ cholPivot r n A k ≤ 0 ∧ ∀ j, j < k → 0 < cholPivot r n A j := by
+  unfold potrfInfo infoOf at hk
+  split at hk
+  · rename_i j hsome
+    have hjk : j = k := by omega
+    subst hjk
+    obtain ⟨h1, h2, h3⟩ := firstIdx_some hsome
+    refine ⟨h1, ?_, ?_⟩
+    · simpa [cholPivot] using h2
+    · intro j' hj'
+      have := h3 j' hj'
+      simpa [cholPivot] using this
+  · omega
+
+/-- non-vacuity: the 1×1 system `[4]` with a root that is exact on the pivot -/
+example : potrfInfo false (fun s => if s = 4 then 2 else 0) 1 (fun _ _ => 4) = 0 ∧
+    SqrtSpec (fun s => if s = 4 then 2 else 0) 1 (fun _ _ => 4) := by
+  constructor
+  · norm_num [potrfInfo, infoOf, firstIdx, pivotOf, sum, List.range, List.range.loop]
+  · intro j hj _
+    have : j = 0 := by omega
+    subst this
+    norm_num [cholPivot, pivotOf, sum]
 
 end SharkVerif.C02
